@@ -26,6 +26,18 @@ CHECKS = {
  'C20': dict(cat='exploration', technique='runtime monitoring: probe-point monitor with an f64 geometric oracle and a rounding margin',
              text='Every trigger of the three expansion tables (discovered through the public verify_trigger) plus seeded random and enumerated boxes/circles are probed with points generated in the box frame and rotated out (just inside/outside each face, corners, own axes, bounding-box gaps, wrong map, random); contains / verify_trigger / distance helpers are compared with the geometric definition evaluated in f64; probes closer to a face than the f32 rounding margin are discarded and counted.',
              note='Trusted: the f64 oracle and its rounding margin (DESIGN.md 3.C20); trigger tables are cross-checked as text against the repository tables.', ref='3.C20'),
+ 'C08': dict(cat='fault_enumeration', technique='runtime monitoring: file-system event log (strace) and tree digests over real generator runs, fault injection on the starting state',
+             text='The real generator (built from the working tree with hook H1) runs on scratch copies: a pristine copy must be reproduced byte for byte and further runs in fresh processes (fresh hash seeds, taskset/nice jitter) must perform no create/truncate/unlink/rename (strace event log); then generated files - observed as the files the generator opens, not assumed - are deleted, truncated, cut to a prefix, replaced by stale siblings, appended to, stale extra files are added and autogenerated regions perturbed (single and multi-fault states): one run must converge to the pristine tree (SHA-256 manifest) and the next run must be silent.',
+             note='Trusted: strace event parsing, SHA-256 manifests; files emptied by the task environment are excluded from tree equality; partly hand-written files are only perturbed inside their generated region.', ref='3.C08'),
+ 'C09': dict(cat='exploration', technique='runtime monitoring of the generator output and decoders against an exact interval evaluation by the reference model',
+             text='For every container the reference model computes the exact minimum/maximum encoded length over the whole conditional structure (if-variables enumerated over enumerators / relevant flag-bit subsets; documented leaf bounds); these are compared with sizes{minimum,maximum,constant_sized} in the freshly emitted IR and with the guard literal scraped from every regenerated decoder; in addition every canonical vector is checked against the IR interval and pushed through the real decoders (no InvalidSize allowed).',
+             note='Trusted: ref/sizes.py leaf bounds (type documents) and frame limits (client 10240 bytes, server 0xFFFD, Wrath server 0x7FFFFD). The interval part is a computation by the reference model, the decoder part is monitoring.', ref='3.C09'),
+ 'C10': dict(cat='exploration', technique='runtime monitoring of the generator output: JSON Typedef validation plus record-by-record comparison with an independent parse of the wowm sources',
+             text='The IR emitted by a real generator run is validated against the published JSON Typedef schema (own validator, all forms, strict additional properties) and every IR object and every wowm object is lowered to one neutral record (names, kinds, opcodes, integer types, enumerators and values in order, members in order with type/upcast/array kind/length source/constant/compression, semantic conditional structure, optional blocks, comment/display/valid-range tags, versions incl. paste expansion, test vectors); a bijection of objects and equality of records is required. Exhaustive over the corpus.',
+             note='Trusted: the independent wowm parser (ref/wowm.py, ref/model.py), ref/jtd.py; comment/display text compared modulo whitespace runs.', ref='3.C10'),
+ 'C13': dict(cat='exploration', technique='runtime monitoring: operation histories against an executable word-level model; accessor table check against the published field table',
+             text='A generated driver (API surface scraped, no expectations) executes sequences of typed setters (builder and &mut forms), getters, dirty_reset, mark_fully_dirty, has_any_dirty_fields, is_bit_dirty and writes (mask embedded in SMSG_UPDATE_OBJECT through the public API, decoded again by the real decoder); the checker replays the sequence on a three-map model (present, dirty, u32 words) whose offsets/sizes/types come only from the published table update-mask.md, and compares every getter, the written block count/mask bits/ascending values, the frame size, and decode(write). Exhaustive to depth 3-4 over representative fields plus seeded random sequences; every generated accessor is exercised once with a tagged value against its table row.',
+             note='Trusted: the published table wowm_language/src/types/update-mask.md as the field-table oracle, ref/codec.py UpdateMask decoder. Array rows reachable only at element 0 and rows that overlap in the table are reported, not judged.', ref='3.C13'),
 }
 PENDING = 'check not built yet (work in progress; DESIGN.md section 8 gives the build order)'
 
